@@ -12,6 +12,13 @@ Space 2 : near misses of a pool of derivable programs: every single-token deleti
           adjacent swap and replacement by each alphabet token.
 Space 3 : layouts of the pool programs: every rendering with <= 2 (thorough 3) deviations from the
           canonical one-blank layout (separator exchange, blank lines, blanks/tabs, comments).
+Space 4 : comment bodies.  Every block-comment body of a small family (empty, runs of `*`, `/`,
+          `//`, `/*`, newlines, bodies ending in `*`) and every line-comment body in every comment
+          position of every pool program, alone and in pairs of comments (all body pairs for the
+          short programs, one body plain for the long ones in the quick tier).
+Space 5 : literal variants.  Every INT / NUMBER token of every pool program replaced by each of
+          13 literals (zeros, signed, leading zeros, exponents); the pool hits every literal
+          position of the grammar; the accepted tree must carry the exact value.
 Oracle  : (i) accepted <=> derivable; (ii) accepted => S-expression == the model's tree;
           (iii) every layout gives the S-expression of the canonical layout; (iv) rejected =>
           JaqalParseError whose (line, column) is the start of a token at or after the model's
@@ -24,6 +31,9 @@ A *case* is small and replayable:
                                   tail > 0, the same for its viable extensions `tail` levels down)
   ("nm", prog, i)                 space-2 bundle: all near misses at token i of pool program prog
   ("layb", prog, idxs, extra)     space-3 bundle: deviations idxs (+ every further one if extra)
+  ("cmt", toks, comments)         one text with explicit comment insertions (gap, kind, body)
+  ("cmtb", prog, i, full)         space-4 bundle: comment i alone and with every second comment
+  ("lit", prog)                   space-5 bundle: all literal variants of pool program prog
 Failures inside a bundle are reported against the narrow ("text", s) / ("lay", ...) form.
 """
 from mc import impl
@@ -401,7 +411,10 @@ class C02(Check):
         "is viable but not itself derivable, so the verdict depends on the context stack; distinct by token string). "
         "space 2: one case = all deletions/duplications/swaps/replacements at one token of a pool program (non-trivial = "
         "both accepted and rejected mutants occur). space 3: one case = a set of layout deviations of a pool program with "
-        "all its one-step extensions (non-trivial = contains a comment or a separator exchange). states = distinct model "
+        "all its one-step extensions (non-trivial = contains a comment or a separator exchange). space 4: one case = one "
+        "comment (position, placement, body from 13 block / 7 line bodies) of a pool program alone and paired with every "
+        "admissible second comment. space 5: one case = all 13 literal variants at every INT/NUMBER token of a pool "
+        "program (non-trivial = some variant is derivable). states = distinct model "
         "configurations (body flag, block stack, statement position); transitions = (prefix configuration, token) shifts tried."
     )
     assumptions = (
